@@ -1,5 +1,5 @@
 // Package c03: the import block is exactly the set of referenced packages under
-// unique valid names. Level 1: every path of <=3 segments over a 14-segment
+// unique valid names. Level 1: every path of <=3 segments over a 15-segment
 // alphabet. Level 2: explicit-state search over sequences of reference
 // operations (all reference kinds) on a collision alphabet of import paths,
 // invariants checked in every state. Level 3: the same at file level through
@@ -37,8 +37,8 @@ func try(f func()) (p any) {
 
 // ---------------------------------------------------------------- level 1: single paths
 
-var segs = []string{"a", "b", "ab", "go", "type", "v1", "v2", "apis", "domain", "3d", "fmt", "a-b", "a--b", "_x"}
-var segsThorough = []string{".x", "yaml.v3", "é", "func", "range", "template", "A", "x_y"}
+var segs = []string{"a", "b", "ab", "go", "type", "v1", "v2", "apis", "domain", "3d", "fmt", "a-b", "a--b", "_x", "yaml.v3"}
+var segsThorough = []string{".x", "é", "func", "range", "template", "A", "x_y"}
 
 type Case struct {
 	Path     string  `json:"path,omitempty"`
@@ -96,6 +96,7 @@ func classOfPath(path, name string) string {
 var cpaths = []string{
 	"a/b", "c/a/b", "ab", "b", "x/b", "y/x/b", "fmt", "foo/fmt", "x/v2", "x/b/v2",
 	"k8s.io/api/core/v1", "k8s.io/apis/core/v1", "x/domain/core/v1", "github.com/json-iterator/go",
+	"y/go", "a/3d", "b/3d", "x/ty-pe", "x/type",
 }
 
 type op struct {
@@ -540,7 +541,7 @@ func init() {
 	core.RegisterWorker("c03sess", sessWorker)
 	core.Register(&core.Prop{
 		ID: "C03", Level: "model_checking", Run: run, Replay: replay,
-		Rule: "level 1: every import path of <=3 segments over the segment alphabet (keywords, digit-initial, vN, apis/domain, punctuation, underscore); level 2: breadth-first search over sequences of reference operations (Ref, string ID, PkgExpose, generic instantiation with a nested path, type literal via go/types, own package) on 14 colliding paths through the real rawNamer+SnippetWriter, states deduplicated by the tracker's path->name map, the bijection/validity/none-missing/none-unused/stable-name/rendered-text invariants checked after every operation; level 2b: every history of 2 and 3 tracker sessions (8-session alphabet of colliding references) inside one fresh child process, same invariants in every session; level 3: every sequence of <=N paths rendered through the real pipeline and the written file parsed (import specs == qualifiers used, each resolving to the rendered path). Non-trivial = multi-segment paths / sequences >=2; states = distinct tracker maps",
+		Rule: "level 1: every import path of <=3 segments over the segment alphabet (keywords, digit-initial, vN, apis/domain, punctuation, underscore); level 2: breadth-first search over sequences of reference operations (Ref, string ID, PkgExpose, generic instantiation with a nested path, type literal via go/types, own package) on 19 colliding paths (incl. pairs whose common candidate is a keyword or starts with a digit) through the real rawNamer+SnippetWriter, states deduplicated by the tracker's path->name map, the bijection/validity/none-missing/none-unused/stable-name/rendered-text invariants checked after every operation; level 2b: every history of 2 and 3 tracker sessions (8-session alphabet of colliding references) inside one fresh child process, same invariants in every session; level 3: every sequence of <=N paths rendered through the real pipeline and the written file parsed (import specs == qualifiers used, each resolving to the rendered path). Non-trivial = multi-segment paths / sequences >=2; states = distinct tracker maps",
 		Assumptions: []string{
 			"'/vendor/' paths are outside the alphabet",
 			"two tracker states with equal path->name maps have equal futures",
